@@ -442,6 +442,8 @@ def c11(ctx):
     replay_cmd(ctx, binp, "replay-pp", pvec, "pp", {"result", "panic"})
     mm_replay(ctx, binp, vec, "blocks", {"result", "panic"}, 5 if ctx.quick else 10, forces=("avx2",))
     miri_vehicles(ctx, [vec], {"result", "panic"}, [])
+    # I->S at real constants: pair offsets up to 254, occurrences in the last overlapping chunk; TLC checks the C11 predicate
+    lib_traces(ctx, "pre", "pre", "all", 1500 if ctx.quick else 15000, "pre", forces=("avx2",))
     ctx.evaluations += sum_exec(ctx, ["pp_scaled_exec", "pp_real_exec", "prefilter_exec", "miri_exec"])
     return C.finish(ctx, "model_checking",
                     "MC_PackedPair: all needles x every ordered pair of distinct offsets x all haystack contents for every length 0..minLen+Extra, both mask kinds "
